@@ -240,9 +240,15 @@ func runC04(c *Ctx) {
 	appendRR := c.fobj("C04-R2", cp+".appendRecomposedRR")
 	segTTL := c.field("C04-R2", cp+".wireChaseSegment.ttl")
 	if setTTL != nil && appendRR != nil && segTTL != nil {
+		var curTop *ssa.Function // function holding the store being judged
 		shown := func(e *Expr) bool {
 			e = strip(e)
 			if FieldIs(segTTL)(e) {
+				return true
+			}
+			// F-C04-2: the relay that fills the cache lowers TTLs to the lifetime the
+			// answer was just admitted with (see rules_f_c04_2.go)
+			if c04AdmittedLifetimeSeconds(c, curTop, e) {
 				return true
 			}
 			d, ok := c04SecondsConv(e)
@@ -310,6 +316,7 @@ func runC04(c *Ctx) {
 						})
 						continue
 					}
+					curTop = TopLevel(fn)
 					c.OriginCheck("C04-R2", key, in, what, v, nil, shown)
 				}
 			}
@@ -356,7 +363,9 @@ func runC04(c *Ctx) {
 	}
 	usedReaders := map[string]bool{}
 	for _, fn := range c.P.RepoFuncs() {
-		if !c04LoadsField(fn, fStored, fTTL, fCutUntil) {
+		// F-C04-2: entry.remaining(entry.stored) — the lifetime at the moment of
+		// admission — is remaining()'s own answer, not a second computation
+		if !c04ReadsLifetimeFields(fn, remainingF, fStored, fStored, fTTL, fCutUntil) {
 			continue
 		}
 		name := fnKey(TopLevel(fn))
